@@ -30,20 +30,29 @@ class Session(object):
         self.attempts = {}
         self.items_acc = {}      # (task, route) -> accumulated item results (provider side)
         self.offers_log = []
+        self.tags = []           # parallel to trace: what provider operation each call belongs to
+        self.inflight_log = []   # parallel to trace: in-flight set right after the call
 
     def close(self):
         if self.model:
             self.model.close()
 
     # -- one conductor API call
-    def call(self, op):
+    def compare(self, a, b):
+        if engine.dumps_sorted(a) != engine.dumps_sorted(b):
+            return engine.first_difference(a, b)
+        return None
+
+    def call(self, op, tag="raw"):
         a = self.impl.apply(op)
+        self.tags.append(tag)
+        self.inflight_log.append(sorted(self.inflight, key=repr))
         if self.model is not None:
             b = self.model.apply(op)
-            if engine.dumps_sorted(a) != engine.dumps_sorted(b):
+            d = self.compare(a, b)
+            if d is not None:
                 self.trace.append((op, a))
-                raise Divergence({"step": len(self.trace) - 1, "op": op,
-                                  "diff": engine.first_difference(a, b)})
+                raise Divergence({"step": len(self.trace) - 1, "op": op, "diff": d})
         self.trace.append((op, a))
         return a
 
@@ -52,18 +61,18 @@ class Session(object):
 
     # -- provider operations
     def boot(self):
-        return self.call(["request_status", "running"])
+        return self.call(["request_status", "running"], "boot")
 
     def poll(self):
         """get_next_tasks and acknowledge every offered action as running."""
-        obs = self.call(["get_next"])
+        obs = self.call(["get_next"], "poll")
         offers = obs["result"] or []
         self.offers_log.append(offers)
         for o in offers:
             t, r = o["id"], o["route"]
             if o.get("items_count") == 0:
-                self.call(["event", t, r, ["action", "running", None]])
-                self.call(["event", t, r, ["action", "succeeded", []]])
+                self.call(["event", t, r, ["action", "running", None]], "ack")
+                self.call(["event", t, r, ["action", "succeeded", []]], "ack-empty")
                 continue
             for a in o["actions"]:
                 item = a.get("item_id")
@@ -72,10 +81,10 @@ class Session(object):
                 self.attempts[key] = n + 1
                 self.inflight[key] = n
                 if item is None:
-                    self.call(["event", t, r, ["action", "running", None]])
+                    self.call(["event", t, r, ["action", "running", None]], "ack")
                 else:
                     self.items_acc.setdefault((t, r), {})
-                    self.call(["event", t, r, ["item", item, "running", None, None]])
+                    self.call(["event", t, r, ["item", item, "running", None, None]], "ack")
         return offers
 
     def report(self, key, status, result=None):
@@ -84,25 +93,24 @@ class Session(object):
         if status in ("succeeded", "failed", "timeout", "abandoned", "canceled"):
             self.inflight.pop(key, None)
         if item is None:
-            return self.call(["event", t, r, ["action", status, result]])
+            return self.call(["event", t, r, ["action", status, result]], "report")
         acc = self.items_acc.setdefault((t, r), {})
         acc[item] = result
         n = max(acc) + 1
         accumulated = [acc.get(i) for i in range(n)]
-        return self.call(["event", t, r, ["item", item, status, result, accumulated]])
+        return self.call(["event", t, r, ["item", item, status, result, accumulated]], "report")
 
     def request(self, status):
-        return self.call(["request_status", status])
+        return self.call(["request_status", status], "request")
 
     def render(self):
-        return self.call(["render"])
+        return self.call(["render"], "render")
 
     def rerun(self, reqs):
-        obs = self.call(["rerun", reqs])
-        return obs
+        return self.call(["rerun", reqs], "rerun")
 
     def persist(self):
-        return self.call(["persist"])
+        return self.call(["persist"], "persist")
 
 
 def lockstep(sess, outcome=lambda key, attempt: ("succeeded", None), max_rounds=200):
